@@ -667,6 +667,50 @@ fn check_program_under_loop(acc: &mut Acc) {
     }
 }
 
+/// cycles whose links pass through several nested macro bodies, in the unoptimised build where
+/// frames are largest: "end in an error instead of exhausting the stack ... on default-size stacks"
+fn check_nested_body_cycles(acc: &mut Acc) {
+    let nest = |k: usize, target: &str| format!("{}{}{}", "[1].map(e, ".repeat(k), target, ")".repeat(k));
+    let mut cases: Vec<(String, Vec<(String, String)>)> = Vec::new();
+    for k in [1usize, 2, 3, 4, 8] {
+        cases.push((format!("self-through-{}-bodies", k), vec![("p0".to_string(), nest(k, "p0"))]));
+        cases.push((
+            format!("mutual-through-{}-bodies", k),
+            vec![("p0".to_string(), nest(k, "p1")), ("p1".to_string(), format!("[1].filter(e, {})", nest(k.saturating_sub(1), "p0")))],
+        ));
+    }
+    for (name, progs) in cases {
+        for profile in ["opt0", "release"] {
+            for stack in ["thread2m", "main"] {
+                let spec = json!({"kind": "programs", "entry": "p0", "stack": stack,
+                                  "programs": progs.iter().map(|(n, s)| json!([n, s])).collect::<Vec<_>>()});
+                let verdict = run_spec(profile, &spec, 120);
+                let canon = format!("{} {} {}", name, profile, stack);
+                acc.case("nested-body-cycles", &canon, true, "cycle:nested-bodies");
+                acc.sample(&format!("nested-bodies:{}", profile), || json!({"programs": progs, "profile": profile, "stack": stack, "outcome": format!("{:?}", verdict)}));
+                let detail = json!({"kind": "nested-body-cycle", "programs": progs, "profile": profile, "stack": stack});
+                match verdict {
+                    ChildVerdict::Returned(t) if t.starts_with("ERR") => {}
+                    ChildVerdict::Returned(t) => acc.fail(Failure::new(
+                        "c12:nested-body-cycle:value-instead-of-error",
+                        format!("cyclic programs {:?} ({} build, {}): returned {} instead of an error", progs, profile, stack, t),
+                        detail,
+                    )),
+                    ChildVerdict::Panicked(p) => acc.fail(Failure::new("c12:nested-body-cycle:panic", format!("cyclic programs {:?} panicked: {}", progs, p), detail)),
+                    ChildVerdict::Died(d) => acc.fail(Failure::new(
+                        format!("c12:nested-body-cycle:{}:process-died", profile),
+                        format!("cyclic programs {:?} ({} build, {} stack): the process died ({}) instead of reporting an error", progs, profile, stack, d),
+                        detail,
+                    )),
+                    ChildVerdict::Timeout => acc.inconclusive.push(format!("child time-out on nested-body cycle {}", canon)),
+                    ChildVerdict::Broken(b) => acc.inconclusive.push(format!("child protocol error ({}): {}", canon, b)),
+                }
+            }
+        }
+    }
+    acc.mark_exhaustive("nested-body-cycles", "self and mutual cycles through 1, 2, 3, 4, 8 nested macro bodies x {unoptimised, release} build x {2 MiB thread, 8 MiB main stack}");
+}
+
 fn run(opts: &Opts, acc: &mut Acc) {
     if opts.is_dbg() {
         // resolution does not depend on the profile; the dbg part repeats the graph sample only
@@ -747,6 +791,7 @@ fn run(opts: &Opts, acc: &mut Acc) {
     }
     check_loop_budget(acc);
     check_program_under_loop(acc);
+    check_nested_body_cycles(acc);
 }
 
 fn replay(opts: &Opts, d: &Value, acc: &mut Acc) {
@@ -781,6 +826,7 @@ fn replay(opts: &Opts, d: &Value, acc: &mut Acc) {
         "rebinding" => check_rebinding(acc),
         "loop" => check_loop_budget(acc),
         "program-under-loop" => check_program_under_loop(acc),
+        "nested-body-cycle" => check_nested_body_cycles(acc),
         k => {
             let _ = opts;
             acc.inconclusive.push(format!("unknown C12 replay kind {:?}", k))
